@@ -44,7 +44,10 @@ RULE_ADDED = (
               'r). '
               ' '
               "Round 17: compressed coinbases whose midstate reads like something (SHA-256's in"
-              'itial state, zeros, ones) under a non-zero count. ')
+              'itial state, zeros, ones) under a non-zero count. '
+              ' '
+              'Round 18: requests of 10001 (4097, 20001, 65535) blocks: announced count and eve'
+              'ry block. ')
 RULE = RULE + " " + RULE_ADDED.strip()
 ASSUMPTIONS = [
     "simulated device + fake transports trusted; the device follows framing only",
@@ -412,10 +415,46 @@ def oversize_case(acc, cseed, huge=True):
                       case)
 
 
+def many_blocks_case(acc, cseed):
+    """a request with more blocks than any round number a developer might have picked as a
+    bound (10 001; 70 000 does not fit the two count bytes ... and is not sent): the device is
+    told the number there is, and gets every one of them"""
+    from ..stack import Stack, signer_device
+    rng = random.Random(cseed)
+    n = 10001 if (cseed - 5) % 1000 == 0 else rng.choice([10001, 4097, 20001, 65535])
+    case = {"many_blocks": True, "seed": cseed}
+    hdrs = [gb.gen_block(rng, 17, tiny=True) for _ in range(50)]
+    blocks = [hdrs[i % 50] for i in range(n)]
+    dev = signer_device(platform="tcp")
+    dev.chunk = ChunkPolicy("const", 255, random.Random(1))
+    dev.adv_policy = {}
+    with Stack(dev) as s:
+        s.initialize()
+        reply, exc, _ = s.request({"command": "updateAncestorBlock", "version": 5,
+                                   "blocks": [b["raw"].hex() for b in blocks]})
+    acc.evaluations += 1
+    acc.count("requests_with_thousands_of_blocks")
+    recs = dev.adv_records
+    if exc is not None or not isinstance(reply, dict) or reply.get("errorcode") != 0 or \
+            len(recs) != 1:
+        return acc.violation("many-blocks:not-carried-out", {"n": n, "reply": reply,
+                                                             "exc": repr(exc)}, case)
+    rec = recs[0]
+    if rec["count"] != n or len(rec["blocks"]) != n:
+        return acc.violation("many-blocks:device-%s" % (
+            "was-announced-another-count" if rec["count"] != n else "got-fewer-blocks"),
+            {"n": n, "announced": rec["count"], "received": len(rec["blocks"])}, case)
+    for i in (0, 1, n // 2, n - 2, n - 1):
+        if rec["blocks"][i]["header"]["stream"].data != blocks[i]["stripped"]:
+            return acc.violation("many-blocks:block-bytes-differ", {"n": n, "index": i}, case)
+
+
 def run_shard(spec, acc):
     env.setup()
     rng = random.Random(spec["seed"])
     holder = {}
+    if spec["seed"] % 1000 in (0, 7):
+        many_blocks_case(acc, spec["seed"] + 5)
     for i in range(spec["n"]):
         run_case(acc, rng.getrandbits(48), spec, holder)
         if i % (24 if spec["n"] <= 100 else 100) == 5:
@@ -428,6 +467,8 @@ def run_shard(spec, acc):
 
 def replay(case, acc):
     env.setup()
+    if case.get("many_blocks"):
+        return many_blocks_case(acc, case["seed"])
     if case.get("oversize"):
         return oversize_case(acc, case["seed"], case.get("huge", True))
     run_case(acc, case["seed"], case["spec"], {})
